@@ -620,7 +620,54 @@ func c10Gen(r *Rng, i int, tier string) any {
 		in.ShutDelayUs = []int{0, 0, 50, 300, 1500}[r.Intn(5)]
 	}
 	in.UselessIndex = r.Chance(12)
+	if r.Chance(6) {
+		c10Backwards(r, &in.Layout)
+	}
 	return in
+}
+
+// c10Backwards (Y1, W1-C10-1): a malformed bundle, one stored block whose number goes BACKWARDS (below the start
+// block after delivery could have begun, below the bundle base without being the leading block, or simply out of
+// order).  The property's quantifier does not describe such bundles; the library filters them per block and the
+// reference model does the same: these layouts are compared by the correspondence and by c10_check, the suffix
+// clause c10_suffix_y1 exempts them (mono_layout = false).
+func c10Backwards(r *Rng, l *fsLayout) {
+	var cand []int
+	for i, f := range l.Files {
+		if len(f) >= 2 {
+			cand = append(cand, i)
+		}
+	}
+	if len(cand) == 0 {
+		return
+	}
+	i := cand[r.Intn(len(cand))]
+	f := l.Files[i]
+	j := 1 + r.Intn(len(f)-1) // inserted in front of f[j]: never the leading block
+	prev := f[j-1]
+	if prev.Num == 0 {
+		return
+	}
+	low := prev.Num - 1
+	if d := uint64(r.Intn(4)); d < low {
+		low -= d
+	}
+	var maxID uint64
+	for _, g := range l.Files {
+		for _, b := range g {
+			if b.ID > maxID {
+				maxID = b.ID
+			}
+		}
+	}
+	nb := fsBlk{ID: maxID + 1 + uint64(r.Intn(3)), Num: low, Par: prev.ID}
+	if r.Chance(50) {
+		nb.Par = prev.Par // a sibling of the previous block
+	}
+	out := append([]fsBlk{}, f[:j]...)
+	out = append(out, nb)
+	out = append(out, f[j:]...)
+	l.Files[i] = out
 }
 
 // c10NoIndex is a block index provider without any index file
@@ -705,9 +752,26 @@ func c10Exec(raw json.RawMessage) (*Case, error) {
 	if hung {
 		cs.Class += "/hang"
 	}
+	if !fsMonotone(l) {
+		cs.Class += "/backwards" // stored numbers go backwards: exempt from c10_suffix_y1, compared by the correspondence
+	}
 	cs.Nontrivial = len(obs.Calls) > 0
 	cs.Key = string(raw)
 	return cs, nil
+}
+
+// fsMonotone: the stored numbers never go backwards over the concatenation of the bundle files (mono_layout)
+func fsMonotone(l *fsLayout) bool {
+	var last uint64
+	for _, f := range l.Files {
+		for _, b := range f {
+			if b.Num < last {
+				return false
+			}
+			last = b.Num
+		}
+	}
+	return true
 }
 
 func minInt(a, b int) int {
@@ -738,6 +802,12 @@ func c10Corpus() []any {
 		c10Input{Layout: fsLayout{Bundle: 10, Start: 1, Stop: 6, Files: [][]fsBlk{{{2, 1, 0}, {4, 2, 2}, {6, 3, 999}, {8, 4, 6}, {10, 5, 8}, {12, 6, 10}}}}, Threads: 2, Delays: fsDelays{Seed: 2, Profile: 1}, ShutAfter: -1, UselessIndex: true},
 		// no stop block: the source tails, the harness shuts it down
 		c10Input{Layout: fsLayout{Bundle: 4, Start: 0, Stop: 0, Files: [][]fsBlk{chain(1, 3), chain(4, 7)}}, Threads: 8, Delays: fsDelays{Seed: 3, Profile: 1}, ShutAfter: -1},
+		// W1-C10-1a: a lower-numbered stored block (3b) after delivery has begun; start 4: filtered, no error
+		c10Input{Layout: fsLayout{Bundle: 10, Start: 4, Stop: 6, Files: [][]fsBlk{{{1, 1, 0}, {2, 2, 1}, {5, 5, 2}, {33, 3, 2}, {6, 6, 5}}}}, Threads: 2, ShutAfter: -1},
+		// ... the same file from start 1: 1 2 5, then the out-of-sequence error in front of 3b
+		c10Input{Layout: fsLayout{Bundle: 10, Start: 1, Stop: 6, Files: [][]fsBlk{{{1, 1, 0}, {2, 2, 1}, {5, 5, 2}, {33, 3, 2}, {6, 6, 5}}}}, Threads: 2, ShutAfter: -1},
+		// W1-C10-1b: a block below the bundle base that is NOT leading
+		c10Input{Layout: fsLayout{Bundle: 100, Start: 100, Stop: 102, Files: [][]fsBlk{{{100, 100, 99}, {101, 101, 100}, {990, 99, 101}, {102, 102, 101}}}}, Threads: 2, ShutAfter: -1},
 		// outside Shutdown during the third delivery
 		c10Input{Layout: fsLayout{Bundle: 10, Start: 11, Stop: 29, Files: [][]fsBlk{chain(10, 19), chain(20, 29)}}, Threads: 2, Delays: fsDelays{Seed: 5, Profile: 4}, ShutAfter: 2, ShutDelayUs: 50},
 	}
